@@ -57,7 +57,7 @@ char *arena_base() {
 }
 
 struct Region {
-	uintptr_t base; size_t len; bool mapped; long inc; bool slab; int klass; uintptr_t hdr; unsigned born_call;
+	uintptr_t base; size_t len; bool mapped; long inc; bool slab; int klass; uintptr_t hdr; unsigned born_call; bool large_res = false;
 };
 
 struct Env {
@@ -334,7 +334,7 @@ struct Runner {
 		used_model = now;
 		// regions taken by a failed or abandoned call must not stay mapped unused: every mapped
 		// region is a slab region or holds a live large block
-		for(auto &r : env.regions) if(r.mapped && !r.slab) {
+		for(auto &r : env.regions) if(r.mapped && r.large_res) {
 			bool holds = false;
 			for(auto &b : live) if(b.p >= r.base && b.p < r.base + r.len) holds = true;
 			VCHECK(c, "C03", holds, "%s: the %zu-byte region at %#lx is still mapped although no live large block lies in it", what, r.len, (unsigned long)r.base);
@@ -351,7 +351,9 @@ struct Runner {
 		VCHECK(c, "C01", b.p + b.rep <= r->base + r->len, "%s: the block at %#lx with reported size %zu extends past the mapped region [%#lx, +%zu)", what, (unsigned long)b.p, b.rep, (unsigned long)r->base, r->len);
 		size_t al = std::min(info.page, std::max<size_t>(8, pow2ceil(n1)));
 		VCHECK(c, "C01", (b.p & (al - 1)) == 0, "%s: %#lx is not aligned to %zu for a request of %zu bytes", what, (unsigned long)b.p, al, b.req);
-		VCHECK(c, "C01", !(r->hdr + 40 > b.p && r->hdr < b.p + b.rep), "%s: the block at %#lx overlaps the frame header at %#lx", what, (unsigned long)b.p, (unsigned long)r->hdr);
+		// (Where the allocator keeps its bookkeeping is not visible from outside: a block that lies on it is found out by what follows - the
+		// fill pattern laid over the whole reported size ruins the bookkeeping, and the pool's next operations fail their own checks,
+		// hand out overlapping blocks or crash under the sanitizers.)
 		for(auto &o : live) {
 			if(&o == &b) continue;
 			VCHECK(c, "C01", b.p + b.rep <= o.p || o.p + o.rep <= b.p, "%s: the new block [%#lx, +%zu) overlaps the live block [%#lx, +%zu)", what, (unsigned long)b.p, b.rep, (unsigned long)o.p, o.rep);
@@ -378,8 +380,8 @@ struct Runner {
 			unsigned ops = objects_per_slab(reps[k]);
 			if(!ops) { c.tag("class-not-calibratable"); continue; }
 			size_t fit = info.slab / reps[k];
-			// the calibration is the pool's own answer; it is only accepted if the slab is used up to a header of at most 1 KiB plus one object
-			VCHECK(c, "C02", ops >= 1 && ops <= fit && ops + 1 + (1024 + reps[k] - 1) / reps[k] >= fit, "%u objects of %zu bytes per %zu-byte slab is outside the plausible range", ops, reps[k], info.slab);
+			// the calibration is the pool's own answer; it is only accepted if at least half of the slab (give or take one object) holds objects
+			VCHECK(c, "C02", ops >= 1 && ops <= fit && (size_t)ops * reps[k] * 2 + reps[k] >= info.slab, "%u objects of %zu bytes per %zu-byte slab is outside the plausible range", ops, reps[k], info.slab);
 			unsigned bound = (peak_live[k] + ops - 1) / ops;
 			VCHECK(c, "C02", slabs_mapped[k] <= bound, "%s: %u slabs are mapped for the %zu-byte class although at most %u blocks of it were ever live at once (%u fit into a slab): freed memory is not reused before new memory is mapped",
 					what, slabs_mapped[k], reps[k], peak_live[k], ops);
@@ -430,8 +432,35 @@ struct Runner {
 		return cls_of_rep(it->second);
 	}
 
+	// The largest request that is served from a slab, asked of scratch pools: a request is "large" when freeing its block right away
+	// gives a region back to the policy (C03: freeing a large block returns its whole reservation). class_size(nb - 1) is today's value.
+	static size_t small_max() {
+		static size_t cached = 0;
+		if(cached) return cached;
+		auto is_small = [&](size_t n) {
+			Env *saved = E; Env scratch; scratch.page = info.page; scratch.slab = info.slab; scratch.sb = info.sb; scratch.aligned = info.aligned; scratch.poison = poison; scratch.soft = soft;
+			scratch.bump = saved->high + (16u << 20); scratch.high = scratch.bump;
+			E = &scratch;
+			int held = mutex_log().held;
+			bool small = true;
+			{ Pol p; Pool *pl = new Pool(p); void *q = pl->allocate(n); unsigned before = scratch.unmap_calls; if(q) pl->free(q); small = q && scratch.unmap_calls == before;
+			  ASAN_UNPOISON_MEMORY_REGION(arena_base() + saved->high, scratch.high - saved->high);
+			  madvise(arena_base() + saved->high, scratch.high - saved->high, MADV_DONTNEED);
+			  ::operator delete(pl); }
+			mutex_log().held = held; mutex_log().error.clear();
+			E = saved;
+			return small;
+		};
+		size_t lo = 1, hi = info.slab;        // is_small(lo) holds, is_small(hi) does not (a slab cannot hold an object of its own size plus a header)
+		if(!is_small(lo)) { cached = 1; return 1; }
+		while(lo + 1 < hi) { size_t mid = lo + (hi - lo) / 2; if(is_small(mid)) lo = mid; else hi = mid; }
+		cached = lo;
+		return cached;
+	}
+	int predict(size_t n) { return (n ? n : 1) <= small_max() ? class_of(std::min<size_t>(n ? n : 1, class_size(info.nb - 1)), info.nb) : -1; }
+
 	Block *do_alloc(size_t n, const char *what, bool via_realloc_null = false) {
-		int k = class_of(n, info.nb);
+		int k = predict(n);
 		begin_call(k, k >= 0, 0);
 		unsigned maps_before = env.map_calls;
 		void *p = via_realloc_null ? api_realloc(nullptr, n) : api_allocate(n);
@@ -454,6 +483,7 @@ struct Runner {
 		Block &b = live.back();
 		b.rep = api_get_size(p);
 		if(k >= 0) b.klass = cls_of_rep(b.rep);
+		else if(Region *rr = env.find(b.p)) rr->large_res = true;
 		sync_ext();
 		birth_checks(b, what);
 		fill(b);
@@ -473,6 +503,7 @@ struct Runner {
 		if(poison) for(auto &b : live) VCHECK_OWN(c, "C03", accessible(b.p, std::max<size_t>(b.req, 1)), "%s: the requested bytes of the live block at %#lx (%zu bytes) are poisoned after a call in which map() failed", what, (unsigned long)b.p, b.req);
 		if(poison) for(auto &b : live) VCHECK(c, "C04", accessible(b.p, std::max<size_t>(b.req, 1)), "%s: map() failed and the requested bytes of the existing block at %#lx (%zu bytes) are no longer accessible (poisoned)", what, (unsigned long)b.p, b.req);
 		for(auto &b : live) { touch(b, what); size_t bad; if(!verify_n(b, b.filled, &bad)) c.fail("C04", "%s: map() failed and byte %zu of the existing block at %#lx changed", what, bad, (unsigned long)b.p); }
+		VCHECK_OWN(c, "C03", (long)pool->numUsedPages() == snap_used, "%s: numUsedPages() drifted from %ld to %zu in a call in which map() failed and no region was taken or returned", what, snap_used, pool->numUsedPages());
 		VCHECK(c, "C04", (long)pool->numUsedPages() == snap_used, "%s: map() failed and numUsedPages() changed from %ld to %zu", what, snap_used, pool->numUsedPages());
 		size_t m = 0; for(auto &r : env.regions) if(r.mapped) m++;
 		VCHECK(c, "C04", m == snap_mapped, "%s: map() failed and the number of mapped regions changed from %zu to %zu (leak)", what, snap_mapped, m);
@@ -522,7 +553,7 @@ struct Runner {
 			verify_all(what);
 			return (size_t)-1;
 		}
-		int k = class_of(n, info.nb);
+		int k = predict(n);
 		take_snapshot();
 		begin_call(k, k >= 0, old.p);
 		unsigned maps_before = env.map_calls;
@@ -559,6 +590,7 @@ struct Runner {
 			Block &b = live.back();
 			b.rep = api_get_size(q);
 			if(k >= 0) b.klass = cls_of_rep(b.rep);
+			else if(Region *rr = env.find(b.p)) rr->large_res = true;
 			if(old.klass >= 0 && b.klass != old.klass) realloc_left_class = true;
 			sync_ext();
 			birth_checks(b, what);
@@ -580,7 +612,7 @@ struct Runner {
 
 	size_t gen_size() {
 		auto &t = c.t;
-		size_t maxc = max_class;
+		size_t maxc = small_max();
 		switch(t.pick(10)) {
 		case 0: return t.pick(3);                                                        // 0, 1, 2
 		case 1: case 2: { int k = t.pick(info.nb); size_t s = class_size(k); return s - 1 + t.pick(3); }   // class size and +-1
@@ -598,7 +630,7 @@ struct Runner {
 		env.c = &c; env.page = info.page; env.slab = info.slab; env.sb = info.sb; env.aligned = info.aligned; env.poison = poison; env.soft = soft; env.live = &live_ext;
 		E = &env;
 		mutex_log().reset();
-		max_class = class_size(info.nb - 1);
+		max_class = small_max();
 		reps.clear(); peak_live.clear(); cur_live.clear(); slabs_mapped.clear(); class_freed.clear();
 		g_last_sites = 0;
 		// fault plan
@@ -671,7 +703,7 @@ struct Runner {
 		c.op("free all %zu", live.size());
 		env.fail_mask = 0; env.fail_a = env.fail_b = -1;
 		while(!live.empty()) do_free(live.size() - 1, 0, "final free");
-		for(auto &r : env.regions) VCHECK(c, "C03", !r.mapped || r.slab, "after freeing every block the %zu-byte non-slab region at %#lx is still mapped", r.len, (unsigned long)r.base);
+		for(auto &r : env.regions) VCHECK(c, "C03", !r.mapped || !r.large_res, "after freeing every block the %zu-byte reservation of a large block at %#lx is still mapped", r.len, (unsigned long)r.base);
 		long slab_pages = 0; bool all_known = true; for(auto &r : env.regions) if(r.mapped) { if(r.inc < 0) all_known = false; slab_pages += r.inc; }
 		if(all_known) VCHECK(c, "C03", (long)pool->numUsedPages() == slab_pages, "after freeing every block numUsedPages() is %zu, the mapped slabs account for %ld", pool->numUsedPages(), slab_pages);
 		g_last_map_calls = env.map_calls;
